@@ -226,3 +226,23 @@ def rp3(ctx):
                       'replaying an append re-aligns (resets) the queue even when it is already known: every replayed batch would wipe the records replayed before it')
     if n == 0:
         ctx.missing('realign', 'no re-alignment call in the AppendRecords replay arm')
+
+
+@rule('RO1', ['C01'], floor=1, template='must-call')
+def ro1(ctx):
+    """The rolling reader is positioned on a block that was actually read from the first file."""
+    n = 0
+    for b in ctx.f.bodies.values():
+        if b.generic_dup():
+            continue
+        aggs = [b.pstart[bi] + si for bi, blk in enumerate(b.blocks) if b.live[bi] for si, st in enumerate(blk['stmts'])
+                if st['k'] == 'assign' and st['rv']['k'] == 'agg' and st['rv'].get('agg') == 'adt' and strip_crate(st['rv']['adt']) == RR]
+        for a in aggs:
+            n += 1
+            reads = [p for (p, e, cs) in ctx.E.direct_sites(b) if e == 'READ']
+            opens = [cs.point for cs in b.calls if cs.node is not None and ctx.E.call_may(cs, 'OPENRW')]
+            ok = any(b.dominates(p, a) for p in reads) and any(b.dominates(p, a) for p in opens)
+            ctx.check(ok, '%s:first-block-read' % b.path, where(b, a), 'RollingReader built after opening the first file and reading its first block',
+                      'the rolling reader is built without reading the first block of the first file: recovery would start on an all-zero block and see an empty log')
+    if n == 0:
+        ctx.missing('reader-ctor', 'no construction of RollingReader found')
